@@ -260,6 +260,17 @@ struct T16 {
     }
   }
 
+  // identity as the model sees it: computed on a value whose prior coefficients are a fixed junk
+  // pattern, so that a setIdentity which forgets a coefficient shows up as a difference between the
+  // model (junk left) and the storage (old content left)
+  template<class P>
+  static P model_identity() {
+    P id;
+    for (int i = 0; i < P::RepSize; ++i) id.coeffs()(i) = static_cast<typename P::Scalar>(7.25 + i);
+    id.setIdentity();
+    return id;
+  }
+
   static void allow(Ctx& c, int lo, int hi, bool verbatim) {
     c.wregion = c.call->region;
     c.wlo = lo;
@@ -305,9 +316,7 @@ struct T16 {
     switch (k.id) {
       case K_SET_IDENTITY: {
         allow(c, 0, N, false);
-        G id;
-        id.setIdentity();
-        store(mi(c, r), id);
+        store(mi(c, r), model_identity<G>());
         with_mut(c, [](auto& m) { m.setIdentity(); });
         break;
       }
@@ -358,9 +367,7 @@ struct T16 {
       }
       case K_COPY_VIEW_SET_IDENTITY: {
         allow(c, 0, N, false);
-        G id;
-        id.setIdentity();
-        store(mi(c, r), id);
+        store(mi(c, r), model_identity<G>());
         with_mut(c, [](auto& m) {
           smooth::Map<G> m2(m);
           m2.setIdentity();
@@ -417,8 +424,7 @@ struct T16 {
                   }
                 } else if (k.id == K_PART_RESET) {
                   allow(c, off, off + len, false);
-                  P id;
-                  id.setIdentity();
+                  const P id = model_identity<P>();
                   for (int i = 0; i < len; ++i) mp[i] = id.coeffs()(i);
                   pv.setIdentity();
                 } else if (k.id == K_PART_UPDATE) {
